@@ -50,6 +50,26 @@ def data_of(ctx, algopy, y, expect_shape=None):
     raise TypeError('result is not a UTPM: %r' % type(y))
 
 
+def x0_for_complex(ctx, fname, tag):
+    """complex zeroth coefficient (functions SciPy/NumPy support on complex data)"""
+    sym = ctx.mode == 'sym'
+    if fname == 'sqrt':
+        R = ctx.cvar('R_' + tag)
+        ctx.assume(R.real > 0)
+        x0 = R * R
+        if sym:
+            ctx.define_atom_c('sqrt', x0, R)
+        return x0, {}
+    x0 = ctx.cvar('x0_' + tag)
+    if fname in ('log', 'reciprocal', 'powi', 'powi_np', 'log1p'):
+        if sym:
+            y = x0 + 1 if fname == 'log1p' else x0
+            ctx.assume(y.re * y.re + y.im * y.im != 0)
+        else:
+            ctx.assume(abs(x0 + (1 if fname == 'log1p' else 0)) > 1e-3)
+    return x0, {}
+
+
 def x0_for(ctx, fname, tag):
     """zeroth coefficient inside the domain of smoothness of `fname`, in the
     parametrisation that turns the algebraic relations between the atoms the
